@@ -18,7 +18,10 @@ pub mod verif_native {
 
     /// producers[i] = step producing file i of `names` (or none); inputs fixed: every step reads "src"
     pub fn mk_graph(names: &[&str], producers: &[Option<usize>], nsteps: usize) -> Graph {
-        let mut g = Graph::default();
+        mk_graph_into(Graph::default(), names, producers, nsteps)
+    }
+
+    pub fn mk_graph_into(mut g: Graph, names: &[&str], producers: &[Option<usize>], nsteps: usize) -> Graph {
         let ids: Vec<FileId> = names
             .iter()
             .map(|n| g.files.id_from_canonical(n.to_string()))
@@ -253,7 +256,13 @@ pub mod verif_native2 {
         if rev {
             pr.reverse();
         }
-        let mut g = mk_graph(&names, &pr, 2);
+        let mut g = if rev {
+            let mut g0 = Graph::default();
+            g0.files.id_from_canonical("h2".to_string());
+            mk_graph_into(g0, &names, &pr, 2)
+        } else {
+            mk_graph(&names, &pr, 2)
+        };
         let mut h = Hashes::default();
         if let Err(e) = open(&path, &mut g, &mut h) {
             return format!("bad: open under the second manifest failed: {}", e);
